@@ -48,7 +48,20 @@ extern "C" __attribute__((noreturn)) void exit(int code) noexcept {
 struct MemReader : public FileReader {
   map<string, string> files;
   Status ReadFile(const string& path, string* contents, string* err) override {
-    auto it = files.find(path);
+    // like a file system: "./f", "sub/../f" and "f" are the same file
+    vector<string> comps;
+    size_t i = 0;
+    while (i <= path.size()) {
+      size_t j = path.find('/', i);
+      if (j == string::npos) j = path.size();
+      string c = path.substr(i, j - i);
+      if (c == "..") { if (!comps.empty()) comps.pop_back(); }
+      else if (!c.empty() && c != ".") comps.push_back(c);
+      i = j + 1;
+    }
+    string norm;
+    for (auto& c : comps) norm += (norm.empty() ? "" : "/") + c;
+    auto it = files.find(norm);
     if (it == files.end()) { *err = "No such file or directory"; return NotFound; }
     *contents = it->second;
     return Okay;
@@ -78,6 +91,8 @@ static void RunManifest(const string& in) {
   MemReader r;
   r.files["build.ninja"] = in;
   r.files["f"] = "rule q\n  command = c\nx = inner\n";
+  r.files["g"] = "include build.ninja\n";        // includes the top-level file back
+  r.files["h"] = "subninja ./sub/../h\n";        // includes itself under another spelling
   ManifestParser p(&state, &r);
   string err;
   bool ok = p.Load("build.ninja", &err);
@@ -148,6 +163,15 @@ static void RunDepsLog(const string& in) {
   string err;
   LoadStatus st = log.Load(".ninja_deps", &state, &err);
   for (Node* n : log.nodes()) if (n) (void)log.GetDeps(n);
+  // what the next session does with whatever was accepted: recompact it, load the result again
+  if (st == LOAD_SUCCESS) {
+    string err2;
+    log.Recompact(".ninja_deps", &err2);
+    State state2;
+    DepsLog log2;
+    log2.Load(".ninja_deps", &state2, &err2);
+    for (Node* n : log2.nodes()) if (n) (void)log2.GetDeps(n);
+  }
   vfs::active = false;
   if (st == LOAD_SUCCESS && err.empty()) g_counts->accepted++; else g_counts->rejected++;
 }
@@ -279,6 +303,11 @@ static vector<Format> Formats() {
                {"rule r\n", "  command = c\n", "build o: r i\n", "build ", "o", ":", " r", " | ", " || ", " |@ ", "\n", "  ",
                 "x = 1\n", "$x", "${x}", "$", "$\n", "$ ", "$:", "default o\n", "pool p\n  depth = 1\n", "include f\n",
                 "subninja f\n", "\t", "\r\n", "#c\n", " phony", "=", string(1, '\0'), "  pool = p\n", "  dyndep = i\n", "$$"},
+               RunManifest});
+  // includes: every way a file can reach itself again, in every spelling
+  f.push_back({"manifest_include",
+               {"include ", "subninja ", "build.ninja", "./build.ninja", "sub/../build.ninja", ".//build.ninja", "g", "./g", "h", "./h", "f", "\n",
+                "rule r\n  command = c\n", "build x: r\n", "$\n", " "},
                RunManifest});
   f.push_back({"depfile", {"a", " ", "\\", "#", "$", ":", "\n", "\r", string(1, '\0'), "\x80", "%", "\t"}, RunDepfile});
   f.push_back({"dyndep",
